@@ -12,6 +12,8 @@ import (
 	"time"
 )
 
+var outRoot string
+
 type oblResult struct {
 	O        *Obligation
 	Status   string // discharged, failed, unknown, unsupported, cover-ok, cover-vacuous
@@ -22,12 +24,14 @@ type oblResult struct {
 	Model    string
 	FailedSG int
 	Query    string
+	SG       *subgoal
 }
 
 type job struct {
 	res   *oblResult
 	query string
 	sgIdx int
+	sg    subgoal
 }
 
 func hasTag(tags []string, p string) bool {
@@ -49,7 +53,12 @@ func main() {
 	list := flag.Bool("list", false, "list obligations and exit")
 	verbose := flag.Bool("v", false, "verbose")
 	timeout := flag.Int("timeout", 0, "solver timeout seconds (default 10 quick / 60 thorough)")
+	outdir := flag.String("outdir", "", "where evidence/ and replays/ are written (default: the verif root)")
 	flag.Parse()
+	outRoot = *outdir
+	if outRoot == "" {
+		outRoot = *verif
+	}
 	start := time.Now()
 	initScratch()
 	code := run(*repo, *verif, *prop, *tier, *only, *dump, *list, *verbose, *timeout, start)
@@ -112,7 +121,7 @@ func run(repo, verif, prop, tier, only, dump string, list, verbose bool, timeout
 			}
 			r := &oblResult{O: o}
 			results = append(results, r)
-			if o.Unsupp != "" || (ex.poisoned != "" && !o.IsCover) {
+			if o.Unsupp != "" {
 				r.Status = "unsupported"
 				r.Detail = o.Unsupp
 				if r.Detail == "" {
@@ -122,7 +131,7 @@ func run(repo, verif, prop, tier, only, dump string, list, verbose bool, timeout
 			}
 			if o.IsCover {
 				q := ex.buildQuery(o, subgoal{nil, False}, "", nil)
-				jobs = append(jobs, job{r, q, 0})
+				jobs = append(jobs, job{r, q, 0, subgoal{nil, False}})
 				r.Subgoals = 1
 				continue
 			}
@@ -136,7 +145,7 @@ func run(repo, verif, prop, tier, only, dump string, list, verbose bool, timeout
 			}
 			for i, sg := range sgs {
 				q := ex.buildQuery(o, sg, "", ex.inputTerms())
-				jobs = append(jobs, job{r, q, i})
+				jobs = append(jobs, job{r, q, i, sg})
 			}
 		}
 	}
@@ -205,12 +214,16 @@ func run(repo, verif, prop, tier, only, dump string, list, verbose bool, timeout
 				r.Detail = fmt.Sprintf("subgoal %d refuted by %s", j.sgIdx, sr.Solver)
 				r.FailedSG = j.sgIdx
 				r.Query = j.query
+				sgc := j.sg
+				r.SG = &sgc
 			default:
 				if r.Status != "failed" {
 					r.Status = "unknown"
 					r.Detail = fmt.Sprintf("subgoal %d: %s (%s)", j.sgIdx, sr.Status, strings.ReplaceAll(strings.TrimSpace(sr.Output), "\n", "; "))
 					r.FailedSG = j.sgIdx
 					r.Query = j.query
+					sgc := j.sg
+					r.SG = &sgc
 				}
 			}
 		}()
@@ -260,7 +273,7 @@ type evidence struct {
 
 func reportEngineFailure(verif, prop, tier string, start time.Time, msg string) int {
 	fmt.Printf("ENGINE-FAILURE property=%s %s\n", prop, msg)
-	replay := filepath.Join(verif, "replays", prop, "engine_failure.txt")
+	replay := filepath.Join(outRoot, "replays", prop, "engine_failure.txt")
 	os.MkdirAll(filepath.Dir(replay), 0o755)
 	os.WriteFile(replay, []byte("obligation: (none: the verifier could not process the working tree)\n"+msg+"\n"), 0o644)
 	fmt.Printf("VIOLATION property=%s replay=%s no-failing-input-found\n", prop, replay)
@@ -268,11 +281,12 @@ func reportEngineFailure(verif, prop, tier string, start time.Time, msg string) 
 }
 
 func report(V *Verifier, verif, repo, prop, tier string, start time.Time, results []*oblResult, execs []*Exec, engineErrors []string, solverMs int64, verbose bool, keys []string) int {
+	os.RemoveAll(filepath.Join(outRoot, "replays", prop))
 	known := loadKnownFindings(filepath.Join(verif, "known_findings.txt"))
 	nObl, nDis, nCover, nCoverOK := 0, 0, 0, 0
 	violations := 0
-	var samples []interface{}
-	var perObl []map[string]interface{}
+	samples := []interface{}{}
+	perObl := []map[string]interface{}{}
 	backends := map[string]int{}
 	sort.SliceStable(results, func(i, j int) bool { return results[i].O.Name < results[j].O.Name })
 	for _, r := range results {
@@ -321,7 +335,7 @@ func report(V *Verifier, verif, repo, prop, tier string, start time.Time, result
 	}
 	for _, e := range engineErrors {
 		violations++
-		path := filepath.Join(verif, "replays", prop, "engine_error.txt")
+		path := filepath.Join(outRoot, "replays", prop, "engine_error.txt")
 		os.MkdirAll(filepath.Dir(path), 0o755)
 		os.WriteFile(path, []byte("obligation: contract well-formedness (closure)\n"+e+"\n"), 0o644)
 		fmt.Printf("VIOLATION property=%s replay=%s no-failing-input-found\n", prop, path)
@@ -329,14 +343,14 @@ func report(V *Verifier, verif, repo, prop, tier string, start time.Time, result
 	}
 	if nObl == 0 && len(engineErrors) == 0 {
 		violations++
-		fmt.Printf("VIOLATION property=%s replay=%s no-failing-input-found\n", prop, filepath.Join(verif, "replays", prop, "no_obligations.txt"))
-		os.MkdirAll(filepath.Join(verif, "replays", prop), 0o755)
-		os.WriteFile(filepath.Join(verif, "replays", prop, "no_obligations.txt"), []byte("obligation: (vacuity) the check generated zero obligations\n"), 0o644)
+		fmt.Printf("VIOLATION property=%s replay=%s no-failing-input-found\n", prop, filepath.Join(outRoot, "replays", prop, "no_obligations.txt"))
+		os.MkdirAll(filepath.Join(outRoot, "replays", prop), 0o755)
+		os.WriteFile(filepath.Join(outRoot, "replays", prop, "no_obligations.txt"), []byte("obligation: (vacuity) the check generated zero obligations\n"), 0o644)
 	}
 	// evidence
 	usedSpecs := map[string]bool{}
 	usedAx := map[string]bool{}
-	var fuc []string
+	fuc := []string{}
 	noInv := []string{}
 	for _, ex := range execs {
 		fuc = append(fuc, ex.fnKey())
@@ -350,7 +364,7 @@ func report(V *Verifier, verif, repo, prop, tier string, start time.Time, result
 			noInv = append(noInv, fmt.Sprintf("%s loop %d", ex.fnKey(), l))
 		}
 	}
-	var trusted, assumptions []string
+	trusted, assumptions := []string{}, []string{}
 	for _, k := range sortedKeys(usedSpecs) {
 		if fs := V.db.Funcs[k]; fs != nil && fs.Trusted {
 			trusted = append(trusted, "trusted contract: "+k)
@@ -380,9 +394,9 @@ func report(V *Verifier, verif, repo, prop, tier string, start time.Time, result
 		"explanation": fmt.Sprintf("%d proof obligations generated from the SSA of %d functions of the working tree; %d discharged (unsat) by an SMT solver; %d vacuity covers checked", nObl, len(fuc), nDis, nCover),
 	}
 	ev := evidence{PropertyID: prop, Tier: tier, Seed: seedEnv(), Level: lvl, Coverage: cov, Assumptions: assumptions, WallS: time.Since(start).Seconds(), Violations: violations}
-	os.MkdirAll(filepath.Join(verif, "evidence"), 0o755)
+	os.MkdirAll(filepath.Join(outRoot, "evidence"), 0o755)
 	data, _ := json.MarshalIndent(ev, "", " ")
-	os.WriteFile(filepath.Join(verif, "evidence", prop+".json"), data, 0o644)
+	os.WriteFile(filepath.Join(outRoot, "evidence", prop+".json"), data, 0o644)
 	fmt.Printf("property=%s functions=%d obligations=%d discharged=%d covers=%d/%d violations=%d wall=%.1fs\n", prop, len(fuc), nObl, nDis, nCoverOK, nCover, violations, time.Since(start).Seconds())
 	if violations > 0 {
 		return 1
@@ -462,7 +476,7 @@ func (k *knownFindings) match(prop, obl string) (string, bool) {
 }
 
 func writeReplay(verif, prop string, r *oblResult, note string) string {
-	dir := filepath.Join(verif, "replays", prop)
+	dir := filepath.Join(outRoot, "replays", prop)
 	os.MkdirAll(dir, 0o755)
 	path := filepath.Join(dir, sanitize(r.O.Name)+".txt")
 	var sb strings.Builder
